@@ -54,8 +54,10 @@ def c08 (toks : List String) : String :=
   | [_, w, h, bpp, c, hx] =>
     match w.toNat?, h.toNat?, bpp.toNat?, parsePayload hx with
     | some w, some h, some bpp, some d =>
-      let r := decompress ⟨w, h, bpp, c = "1", d.toArray⟩
-      showBytesOut r ++ "\t" ++ specDecompress w h bpp (c = "1") d
+      let ev : BitmapEvent := ⟨w, h, bpp, c = "1", d.toArray⟩
+      let r := decompress ev
+      -- `am=`: the bytes of buffer the model says the call requests (`allocTrace`)
+      showBytesOut r ++ " am=" ++ toString (allocTrace ev).sum ++ "\t" ++ specDecompress w h bpp (c = "1") d
     | _, _, _, _ => "bad-case"
   | [_, bpp, hx, w1, h1, w2, h2] =>
     -- `decomp2`: the same compressed data decoded twice in a row with two geometries: each result is its own
